@@ -270,7 +270,12 @@ let handle line =
        let ps = String.concat " " (List.map (fun (o, i) -> tok_of_wire o ^ "=" ^ tok_of_wire i) pins) in
        let txt = match write_assign e pins with
          | None -> "assert"
-         | Some ((co, bo), (ci, bi)) -> brk_str co bo ^ "=" ^ brk_str ci bi in
+         | Some ((co, bo), (ci, bi)) ->
+           (* the reader on the text just written: the same pins again (C04_assign_roundtrip) *)
+           let back = match read_assign e (brk_atom co bo) (brk_atom ci bi) with
+             | None -> "error"
+             | Some p2 -> String.concat " " (List.map (fun (o, i) -> tok_of_wire o ^ "=" ^ tok_of_wire i) p2) in
+           brk_str co bo ^ "=" ^ brk_str ci bi ^ " | " ^ back in
        ps ^ " | " ^ txt)
   | _ -> "bad command"
 
